@@ -484,7 +484,50 @@ func c01F6(w *h.W) {
 	}
 }
 
+// F7: sweep of the NUMBER of clauses of a predicate (1..24/40) whose first head arguments are of every
+// kind (atoms, numbers, strings, lists, compounds, variables, non-ASCII), called with every such value in
+// every representation and with an unbound argument: whatever selects clauses by the call's first
+// argument, at whatever size threshold, must select exactly those SLD resolution selects, in order.
+func c01F7(w *h.W) { clauseCountSweep(w, "F7") }
+
+func clauseCountSweep(w *h.W, fam string) {
+	keys := []string{"a", "\"ab\"", "[a, b]", "f(x)", "1", "\"日本\"", "X", "b", "[a|T]", "2.0", "\"\"", "[]", "\"ab\"", "f(Y)", "'日'", "[97]", "\"a\"", "g(\"ab\")", "a"}
+	calls := []string{
+		"c(a, I)", "c(b, I)", "c(K, I)", "c(\"ab\", I)", "c([a, b], I)", "atom_chars(ab, K), c(K, I)", "append([a], [b], K), c(K, I)", "c([a|_], I)", "c([a, b|_], I)",
+		"K = [a|T], T = [b], c(K, I)", "c('.'(a, '.'(b, [])), I)", "c(\"日本\", I)", "c(['日', '本'], I)", "atom_chars('日本', K), c(K, I)", "c(['日'|_], I)", "c(f(Z), I)", "c(f(x), I)",
+		"c(1, I)", "c(2.0, I)", "c(1.0, I)", "c([], I)", "c(\"\", I)", "c('日', I)", "c([97], I)", "c(\"a\", I)", "c([a], I)", "c(g([a, b]), I)", "c(g(\"ab\"), I)", "findall(E, member(E, [a, b]), K), c(K, I)",
+	}
+	for n := 1; n <= w.Pick(24, 40); n++ {
+		if !w.Mine() {
+			continue
+		}
+		var cls []T
+		for i := 0; i < n; i++ {
+			cls = append(cls, rd(fmt.Sprintf("c(%s, %d)", keys[i%len(keys)], i)))
+		}
+		pc := &h.ProgCase{DQ: "chars", Steps: []h.ProgStep{h.Consult(cls...)}}
+		for _, q := range calls {
+			st := h.Query(rd(q), 45)
+			st.Vars = []string{"I"}
+			pc.Steps = append(pc.Steps, st)
+		}
+		// the same program built by assertz/1
+		pa := &h.ProgCase{DQ: "chars"}
+		for _, c := range cls {
+			pa.Steps = append(pa.Steps, h.Query(Cm("assertz", c), 2))
+		}
+		for _, q := range calls {
+			st := h.Query(rd(q), 45)
+			st.Vars = []string{"I"}
+			pa.Steps = append(pa.Steps, st)
+		}
+		runProgCase(w, fam, pc, n)
+		runProgCase(w, fam+"-assert", pa, n)
+	}
+}
+
 func c01Work(w *h.W) {
+	c01F7(w)
 	c01F6(w)
 	c01F3(w)
 	c01F4(w)
@@ -496,7 +539,7 @@ func c01Work(w *h.W) {
 func init() {
 	h.Register(&h.Check{
 		ID: "C01",
-		Rule: "bounded-exhaustive program enumeration: F1 all clause sequences of length <= K over a 21-clause menu for p/1, q/1 (facts, rules, direct and mutual recursion, nested disjunction, call/N, lists) x 7 queries; F2 all head terms of depth <= 2 over {a,X,Y,[],f/1,g/2,'.'/2} x all call arguments of depth <= 1 and vice versa, all bodies building such a term, all pairs of depth-1 heads; F3 all clause bodies of <= L items over 17 goal shapes (call/N, nested ;/, , closures) as clause, top-level disjunct and query, and every call/N split of an 8-ary goal; F4 string literals in heads vs list calls under each double_quotes flag; F5 every construction of a list from nested partial lists against head list patterns; F6 sweep of the head size 0..34 (70) against 7 top-level disjunctive bodies, in clauses and through call/1 with as many extra free variables. Non-trivial = the reference produces at least one answer or an error; distinct = distinct program+queries text.",
+		Rule: "bounded-exhaustive program enumeration: F1 all clause sequences of length <= K over a 21-clause menu for p/1, q/1 (facts, rules, direct and mutual recursion, nested disjunction, call/N, lists) x 7 queries; F2 all head terms of depth <= 2 over {a,X,Y,[],f/1,g/2,'.'/2} x all call arguments of depth <= 1 and vice versa, all bodies building such a term, all pairs of depth-1 heads; F3 all clause bodies of <= L items over 17 goal shapes (call/N, nested ;/, , closures) as clause, top-level disjunct and query, and every call/N split of an 8-ary goal; F4 string literals in heads vs list calls under each double_quotes flag; F5 every construction of a list from nested partial lists against head list patterns; F6 sweep of the head size 0..34 (70) against 7 top-level disjunctive bodies, in clauses and through call/1 with as many extra free variables; F7 sweep of the number of clauses 1..24 (40) of a predicate whose first head arguments are of every kind (atoms, numbers, strings, lists, compounds, variables, non-ASCII), loaded and asserted, called with 29 first arguments in every representation. Non-trivial = the reference produces at least one answer or an error; distinct = distinct program+queries text.",
 		Explanation: "state = one generated program (loaded into a fresh real interpreter); transition = one query run to exhaustion (or 8..40 answers) on the real interpreter whose full answer sequence, terminal status, error term and output are compared with the reference machine; traces_validated = programs whose every query was decided (reference within its step budget)",
 		Assumptions: []string{
 			"reference: ref/solve (goal-stack / choice-point machine with a destructive trail, ISO 13211-1 semantics, self-checked against the ISO examples for cut, catch/throw, all-solutions and database predicates)",
